@@ -29,8 +29,12 @@
    not_map_back                        s no_nl; d no_space                                  (4)
    revoked_key                         kt keytype; fp no_nl; f no_space                     (5)
    revoked_key_err                     kt keytype; fp no_nl; f no_space                     (5)
-   accepted_key_partial                see the end of this file                             plain key, restricted domain
-   accepted_cert_partial               see the end of this file                             certificate, restricted domain
+   accepted_key                        u no_nl; s no_space; p digits; kt, h keytype;        plain key, full domain (6)
+                                       ks non-empty no_space (base64 or MD5 hex with colons)
+   accepted_cert                       as accepted_key, and: kid no_nl and no_ssh_frag;     certificate (6) (7)
+                                       n digits; kt2, h2 keytype; ks2 no_space
+   accepted_key_partial                see the end of this file                             kept: earlier, narrower statement
+   accepted_cert_partial               see the end of this file                             kept: earlier, narrower statement
 
    (1) the source must be space-free because the user field before it is a greedy `.*`: a source
        containing " from " would move the split.  sshd prints an address or a resolved host name.
@@ -41,12 +45,22 @@
    (5) revoked-keys file names WITH white space: correspondence check only (the greedy fingerprint
        field's marker count needs a space-free path).
 
-   NOT proved for the full domain sshd can print: the accepted public key / certificate messages
-   (see the _partial theorems and their comment at the end of this file). *)
+   (6) recorded as the patterns cut the line: Alg = "KT HASH", SSHKeySum = the digest WITHOUT its
+       "HASH:" prefix (for an MD5 fingerprint  MD5:aa:bb:..  the Alg group stops at the first colon,
+       so SSHKeySum = aa:bb:.. with its inner colons), CA = "CA KT2 HASH2:KS2" including the word CA.
+   (7) no_ssh_frag kid: the key id, with the space in front of it, contains no fragment
+       " ssh" alnum+ ": " [A-Za-z0-9_ -]+ ":" non-space.  Spaces, parentheses, the words serial, from,
+       port, "(serial 7)" are all allowed.  The hypothesis is NECESSARY: loginRE is unanchored and its
+       three leading fields are greedy, so such a fragment inside the key id moves the port (and with
+       a " from A port N" in front of it also account and source) into the key id:
+       C06_keyid_ssh_fragment_refuted, C06_example_keyid_hijack.
+
+   NOT covered: the optional  ", <method info>"  suffix sshd can append after the CA fingerprint
+   (correspondence check only); key ids that contain such a fragment (false, see (7)). *)
 From Coq Require Import Ascii String List Bool Arith ZArith NArith.
 Import ListNotations.
 From AM Require Import Lib.Bytes Lib.Regex Proofs.RegexLemmas Model.SshdProc Proofs.SshdFields Proofs.SshdForms
-  Proofs.SshdFields2 Proofs.SshdForms2 Proofs.SshdLogin.
+  Proofs.SshdFields2 Proofs.SshdForms2 Proofs.SshdLogin Proofs.SshdLogin2.
 From AM Require Import Gen.SshdDispatch Gen.SshdHandlers Model.SshdSketch Proofs.SshdHandlersTie.
 Open Scope string_scope.
 Open Scope list_scope.
@@ -213,7 +227,8 @@ Example C06_example_revoked :
   r = failure_result true (ev_revoked_key cfg0 (s2l "9") (s2l "ED25519") (s2l "SHA256:YI+caZKJCNaXgsD0NvRZ2fLaEeF46cEVyadru/SL76o") (s2l "/etc/ssh/revoked_keys")).
 Proof. vm_compute. reflexivity. Qed.
 
-(* ---------- Accepted publickey: PARTIAL (restricted domain) ----------
+(* ---------- Accepted publickey: the EARLIER, narrower statements (kept; superseded by C06_accepted_key /
+   C06_accepted_cert further down, whose domain contains this one) ----------
 
    Line:  Accepted publickey for U from S port P ssh2: KT HASH:KS
           optionally followed by   ID KID (serial N) CA KT2 HASH2:KS2      (certificate)
@@ -222,12 +237,13 @@ Proof. vm_compute. reflexivity. Qed.
      kt, h, kt2, h2 upper_word = non-empty [A-Z0-9-] (what sshkey_type and ssh_digest_alg_name print);
      ks non-empty no_space;  ks2 no_space;  n digits;
      kid plain_keyid = no white space, not the word from or port, not starting with ssh.
-   MISSING from the full domain (correspondence check only):
+   MISSING here, covered by the wide theorems below:
      - key type / hash names with lower-case letters or underscore (the regex class is [A-Za-z0-9_ -]);
      - a source that is exactly the word from (proof artefact: the line is still parsed correctly);
-     - key ids containing white space.  This is NOT a proof artefact: the three greedy fields of
+     - key ids containing white space.  Not everything can be covered: the three greedy fields of
        loginRE are unanchored, so a key id such as  x from 6.6.6.6 port 1 ssh2: RSA SHA256:zzz
        moves user, source and port into the key id (see C06_example_keyid_hijack below);
+   MISSING everywhere (correspondence check only):
      - the optional  ", <method info>"  suffix sshd can append after the CA fingerprint.
    What the regexes record (both stated in the theorems, both differ from the property text read
    literally): the key algorithm is  "KT HASH"  and the fingerprint is the bare digest KS (the
@@ -276,6 +292,87 @@ Example C06_example_keyid_hijack :
   map (fun e => (ev_logged_as e, ev_src e, ev_port e, ev_user_id e)) (r_writes (process cfg0 (s2l "1") line true true))
   = [(s2l "bob from 1.2.3.4 port 22 ssh2: RSA-CERT SHA256:abc ID x", s2l "6.6.6.6", Some (s2l "1"), s2l "unknown")].
 Proof. vm_compute. reflexivity. Qed.
+
+(* ---------- Accepted publickey: the widened domain (Proofs/SshdLogin2.v) ----------
+
+   Line:  Accepted publickey for U from S port P ssh2: KT HASH:KS
+          optionally followed by   ID KID (serial N) CA KT2 HASH2:KS2      (certificate)
+
+   Domain:  u no_nl;  s no_space (ANY space-free word, the word from included);  p digits;
+     kt, h, kt2, h2 keytype = non-empty [A-Za-z0-9_-]  (RSA, ED25519-CERT, ECDSA-SK, sk-ecdsa-sha2-nistp256,
+       ssh-ed25519, SHA256, MD5, ... : lower case, digits, underscore, a leading "ssh" are all fine);
+     ks non-empty no_space: base64 with + / =, or the hex digest of an MD5 fingerprint with its colons;
+     ks2 no_space;  n digits (any length: serials up to 2^64-1 and beyond);
+     kid no_nl with [no_ssh_frag kid = true] — see (7) in the header: spaces, parentheses, serial, from,
+       port, a complete "(serial 7)" are allowed; what is excluded is exactly what makes the statement
+       false.
+   What the regexes record (stated in the theorems; each differs from the message read literally):
+     the key algorithm is "KT HASH" and the fingerprint is the bare digest KS — sshd's fingerprint is
+     HASH:KS, for MD5  MD5:aa:bb:...  the recorded SSHKeySum is  aa:bb:...  (greedy [\w -]+ cannot
+     cross the first colon);  the CA datum is "CA KT2 HASH2:KS2" INCLUDING the literal word CA. *)
+
+Theorem C06_accepted_key : forall c tok pid u s p kt h ks wok ready,
+  atoi tok = Some pid ->
+  no_nl u -> no_space s -> digits p ->
+  keytype kt -> keytype h -> ks <> [] -> no_space ks ->
+  process c tok (fmt_accepted_key u s p kt h ks) wok ready =
+  accepted_result wok ready "SSHKeyLogin" pid (s2l "unknown")
+    (ev_accepted_key c tok u s p (kt ++ s2l " " ++ h) ks).
+Proof. exact process_accepted_key. Qed.
+Print Assumptions C06_accepted_key.
+
+Theorem C06_accepted_cert : forall c tok pid u s p kt h ks kid n kt2 h2 ks2 wok ready,
+  atoi tok = Some pid ->
+  no_nl u -> no_space s -> digits p ->
+  keytype kt -> keytype h -> ks <> [] -> no_space ks ->
+  no_nl kid -> no_ssh_frag kid = true -> digits n -> keytype kt2 -> keytype h2 -> no_space ks2 ->
+  process c tok (fmt_accepted_cert u s p kt h ks kid n kt2 h2 ks2) wok ready =
+  accepted_result wok ready "SSHCertLogin" pid kid
+    (ev_accepted_cert c tok u s p (kt ++ s2l " " ++ h) ks kid n (ca_text kt2 h2 ks2)).
+Proof. exact process_accepted_cert. Qed.
+Print Assumptions C06_accepted_cert.
+
+(* a readable sufficient condition for the key-id hypothesis: the key id does not start with "ssh"
+   and nowhere contains " ssh" *)
+Theorem C06_no_ssh_frag_simple : forall kid, nowhere (s2l " ssh") (sp :: kid) = true -> no_ssh_frag kid = true.
+Proof. exact no_ssh_frag_simple. Qed.
+Print Assumptions C06_no_ssh_frag_simple.
+
+(* the hypotheses are satisfiable by key ids with spaces, parentheses, the word serial, a complete
+   "(serial 3)", and even " from A port N" *)
+Example C06_keyid_hyps_satisfiable :
+  no_ssh_frag (s2l "jane doe (ops) serial 12 (serial 3)") = true /\ no_nl (s2l "jane doe (ops) serial 12 (serial 3)") /\
+  no_ssh_frag (s2l "ops from 6.6.6.6 port 1 (laptop) ssh key: spare") = true /\
+  keytype (s2l "sk-ecdsa-sha2-nistp256") /\ keytype (s2l "ssh-ed25519") /\ keytype (s2l "MD5") /\
+  no_space (s2l "16:27:ac:a5:76:28:2d:36:63:1b:56:4d:eb:df:a6:48") /\ no_space (s2l "from").
+Proof. unfold keytype, no_nl, no_space. repeat split; try reflexivity; discriminate. Qed.
+
+(* ... and such a line, evaluated: key id with "(serial 3)" inside, lower-case key type, MD5 fingerprints,
+   source "from", a 20-digit serial *)
+Example C06_example_cert_wide :
+  let kid := s2l "jane doe (ops) serial 12 (serial 3)" in
+  let line := fmt_accepted_cert (s2l "bob") (s2l "from") (s2l "22") (s2l "ssh-ed25519-cert-v01") (s2l "MD5")
+                (s2l "16:27:ac:a5:76:28:2d:36") kid (s2l "18446744073709551615") (s2l "rsa_sha2-512") (s2l "MD5") (s2l "aa:bb") in
+  line = s2l "Accepted publickey for bob from from port 22 ssh2: ssh-ed25519-cert-v01 MD5:16:27:ac:a5:76:28:2d:36 ID jane doe (ops) serial 12 (serial 3) (serial 18446744073709551615) CA rsa_sha2-512 MD5:aa:bb"
+  /\ map (fun e => (ev_logged_as e, ev_src e, ev_port e, ev_user_id e, ev_data e)) (r_writes (process cfg0 (s2l "1") line true true))
+    = [(s2l "bob", s2l "from", Some (s2l "22"), kid,
+        [("Alg", s2l "ssh-ed25519-cert-v01 MD5"); ("CA", s2l "CA rsa_sha2-512 MD5:aa:bb");
+         ("SSHKeySum", s2l "16:27:ac:a5:76:28:2d:36"); ("Serial", s2l "18446744073709551615")])].
+Proof. vm_compute. split; reflexivity. Qed.
+
+(* the key-id hypothesis is needed: the smallest fragment inside a key id already moves the port and
+   makes certIDRE fail on the rest (the certificate identity is lost, userID stays "unknown").
+   Expected by the property: port 22, Alg "RSA-CERT SHA256", SSHKeySum abc, userID "a ssh2: x:y", serial 0. *)
+Example C06_keyid_ssh_fragment_refuted :
+  let kid := s2l "a ssh2: x:y" in
+  let line := fmt_accepted_cert (s2l "bob") (s2l "1.2.3.4") (s2l "22") (s2l "RSA-CERT") (s2l "SHA256") (s2l "abc")
+                kid (s2l "0") (s2l "RSA") (s2l "SHA256") (s2l "def") in
+  no_ssh_frag kid = false /\
+  line = s2l "Accepted publickey for bob from 1.2.3.4 port 22 ssh2: RSA-CERT SHA256:abc ID a ssh2: x:y (serial 0) CA RSA SHA256:def" /\
+  map (fun e => (ev_logged_as e, ev_src e, ev_port e, ev_user_id e, ev_data e)) (r_writes (process cfg0 (s2l "1") line true true))
+  = [(s2l "bob", s2l "1.2.3.4", Some (s2l "22 ssh2: RSA-CERT SHA256:abc ID a"), s2l "unknown",
+      [("Alg", s2l "x"); ("SSHKeySum", s2l "y")])].
+Proof. vm_compute. repeat split; reflexivity. Qed.
 
 (* ---------- the handlers of the model are the handlers of the source ----------
    Gen/SshdHandlers.v is REGENERATED on every run by symbolic evaluation of each handler's Go body
